@@ -58,7 +58,7 @@ MUTANTS = [
     m("c08-cache-never-released", ["C08"], [(BH, "                if !has_more_chunks {\n                    state.cached_response = None\n                }", "                if !has_more_chunks && block2.num == 0 {\n                    state.cached_response = None\n                }")], "cache entry kept after the final block"),
     m("c08-options-not-cloned", ["C08"], [(BH, "        for (&option, value) in src.options() {\n            dst.set_option(CoapOption::from(option), value.clone());\n        }", "        for (&option, value) in src.options() {\n            if option != 4 {\n                dst.set_option(CoapOption::from(option), value.clone());\n            }\n        }")], "ETag not repeated in follow-up blocks"),
     # ---- C09
-    m("c09-offset-negotiated-size", ["C09"], [(BH, "                let payload_offset =\n                    usize::from(request_block1.num) * request_block1.size();", "                let payload_offset =\n                    usize::from(request_block1.num) * response_block1.size();")], "offset computed with the negotiated size"),
+    m("c09-retransmit-inserts", ["C09"], [(BH, "                    payload_offset..payload_offset + request_block1.size(),", "                    payload_offset\n                        ..if payload_offset < cached_payload.len()\n                            && request_block1.more\n                        {\n                            payload_offset\n                        } else {\n                            payload_offset + request_block1.size()\n                        },")], "a retransmitted non-final block is inserted instead of replacing the buffered one"),
     m("c09-413-arm-removed", ["C09"], [(BH, "                response.message.header.code = MessageClass::Response(\n                    ResponseType::RequestEntityTooLarge,\n                );\n                Ok(true)", "                response.message.header.code = MessageClass::Response(\n                    ResponseType::RequestEntityTooLarge,\n                );\n                Ok(request.message.payload.len() < 1000)")], "large requests without Block1 passed to the application"),
     # ---- C10
     m("c10-block-options-zero", ["C10"], [(BH, "const BLOCK_OPTIONS_MAX_LENGTH: usize = 12;", "const BLOCK_OPTIONS_MAX_LENGTH: usize = 0;")], "no room reserved for the block options"),
